@@ -207,8 +207,8 @@ FamDefects ==
                    <<F("", "title"), FA("k", "need", <<Arg("x", StrV("ok"))>>), FA("", "need", <<Arg("x", Var("sv"))>>)>> },
            g \in {NoVars, [sv |-> NullV], [sv |-> StrV("given")]} }
   \* unknown / misplaced directive, directive with unknown or ill-typed argument: the document is refused
-  \cup { Plain("defect", <<Bad(F("", "title"), b), FS("", "a", <<F("", "name")>>)>>) : b \in {"unknown_dir", "misplaced_dir", "dir_unknown_arg", "dir_bad_arg"} }
-  \cup { Plain("defect", <<FS("", "a", <<Bad(F("", "name"), b)>>), F("", "title")>>) : b \in {"unknown_dir", "misplaced_dir", "dir_unknown_arg", "dir_bad_arg"} }
+  \cup { Plain("defect", <<Bad(F("", "title"), b), FS("", "a", <<F("", "name")>>)>>) : b \in {"unknown_dir", "misplaced_dir", "dir_unknown_arg", "dir_bad_arg", "dir_missing_arg"} }
+  \cup { Plain("defect", <<FS("", "a", <<Bad(F("", "name"), b)>>), F("", "title")>>) : b \in {"unknown_dir", "misplaced_dir", "dir_unknown_arg", "dir_bad_arg", "dir_missing_arg"} }
   \cup { Plain("defect", <<Bad(Inl("", <<F("", "title")>>), b)>>) : b \in {"unknown_dir", "dir_unknown_arg"} }
   \* undefined type condition: inline fragment and fragment definition
   \cup { Plain("defect", <<Inl("Nope", <<F("", "title")>>), F("x", "title")>>),
